@@ -385,8 +385,11 @@ def _run_one(o, mod, dem, ll, wd, tier, seed, R, log, irsym):
                if d["value"] is not None]
         nat = run_native(exe, vec, wd, "cex")
         failing = [l for l in nat["lines"] if l[1] == c["label"] and l[2] == 0]
+        how = "native replay of the slice"
+        if c.get("kind") == "lock" and opts.get("confirm", "").startswith("stress:"):
+            failing, how = stress_confirm(os.path.join(ROOT, opts["confirm"][7:]), wd), "multi-threaded stress run against the library IR"
         c2 = {"label": c["label"], "detail": c.get("detail", ""), "inputs": {n: v for n, v in vec},
-              "replayed": bool(failing), "native": [list(x) for x in nat["lines"][:6]]}
+              "replayed": bool(failing), "confirmed_how": how, "native": [list(x) for x in nat["lines"][:6]]}
         R["cex"].append(c2)
         if failing:
             confirmed.append(c2)
@@ -402,6 +405,29 @@ def _run_one(o, mod, dem, ll, wd, tier, seed, R, log, irsym):
     # a few explored paths written out for the evidence
     R["sample_paths"] = [{"end": t["end"], "n_constraints": len(t["pc"]), "events": [_ev(e) for e in t["trace"][:8]]}
                          for t in res.traces[:3]]
+
+
+_STRESS = {}
+
+
+def stress_confirm(src, wd):
+    """build the whole library IR natively with a multi-threaded driver and run it a few times"""
+    if src in _STRESS:
+        return _STRESS[src]
+    exe = os.path.join(wd, "stress.exe")
+    try:
+        P.run(["clang++-14", "-O1", "-Wno-override-module"] + P.repo_flags() + [P.build_lib(), src, "-o", exe, "-lpthread", "-lm"])
+    except Exception as e:
+        _STRESS[src] = []
+        return []
+    hit = []
+    for k in range(4):
+        r = subprocess.run(["timeout", "60", exe], stdout=subprocess.PIPE, stderr=subprocess.PIPE, text=True, cwd=wd)
+        if r.returncode == 1:
+            hit = [("stress", r.stderr.strip()[-200:])]
+            break
+    _STRESS[src] = hit
+    return hit
 
 
 def _ev(e):
